@@ -2,9 +2,11 @@ package main
 
 // c35-facts: extracts from gateway/proxy_handler.go
 //   * the `delHeaders` list (canonicalised with net/textproto, as http.Header.Del does), and
+//   * the host-selection chain of (*Gateway).proxyRewrite (`if <cond> { out.URL.Host = <src> } else if …`,
+//     followed by `out.URL.Host = out.URL.Hostname()` and `out.Host = out.URL.Host`), and
 //   * the ordered header operations of (*Gateway).proxyRewrite,
-// as Lean text. Statements of proxyRewrite that do not touch `Header` / `SetXForwarded` (the URL / Host
-// assignments) are not part of the extracted facts; a header statement of an unknown shape fails loudly.
+// as Lean text. A host or header statement of an unknown shape fails loudly; statements that touch neither
+// (`in := preq.In`, `out.URL.Scheme = …`) are not part of the extracted facts.
 //
 // usage: extract c35-facts <namespace> <proxy_handler.go>
 
@@ -56,6 +58,86 @@ func c35HeaderCall(e ast.Expr) (method string, args []ast.Expr, ok bool) {
 
 func leanStr(s string) string { return strconv.Quote(s) }
 
+// c35HostCond recognises one condition of the host-selection chain.
+func c35HostCond(fset *token.FileSet, e ast.Expr) (string, bool) {
+	intLit := func(x ast.Expr) (string, bool) {
+		bl, ok := x.(*ast.BasicLit)
+		if !ok || bl.Kind != token.INT {
+			return "", false
+		}
+		n, err := strconv.ParseUint(bl.Value, 0, 31)
+		return strconv.FormatUint(n, 10), err == nil
+	}
+	switch x := e.(type) {
+	case *ast.CallExpr:
+		if c35Src(fset, x.Fun) == "in.ProtoAtLeast" && len(x.Args) == 2 {
+			a, ok1 := intLit(x.Args[0])
+			b, ok2 := intLit(x.Args[1])
+			if ok1 && ok2 {
+				return fmt.Sprintf(".protoAtLeast %s %s", a, b), true
+			}
+		}
+	case *ast.BinaryExpr:
+		l := c35Src(fset, x.X)
+		if l == "in.ProtoMajor" {
+			if n, ok := intLit(x.Y); ok {
+				switch x.Op {
+				case token.EQL:
+					return ".protoMajorEq " + n, true
+				case token.GEQ:
+					return ".protoMajorGe " + n, true
+				}
+			}
+		}
+		if l == "in.TLS" && x.Op == token.NEQ && c35Src(fset, x.Y) == "nil" {
+			return ".tlsPresent", true
+		}
+	}
+	return "", false
+}
+
+// c35HostAssign recognises a block consisting of the single statement `out.URL.Host = <source>`.
+func c35HostAssign(fset *token.FileSet, b *ast.BlockStmt) (string, bool) {
+	if b == nil || len(b.List) != 1 {
+		return "", false
+	}
+	as, ok := b.List[0].(*ast.AssignStmt)
+	if !ok || as.Tok != token.ASSIGN || len(as.Lhs) != 1 || len(as.Rhs) != 1 || c35Src(fset, as.Lhs[0]) != "out.URL.Host" {
+		return "", false
+	}
+	switch c35Src(fset, as.Rhs[0]) {
+	case "in.Host":
+		return ".inHost", true
+	case "in.TLS.ServerName":
+		return ".sni", true
+	}
+	return "", false
+}
+
+// c35HostChain recognises `if c1 { out.URL.Host = s1 } else if c2 { … } else { out.URL.Host = sd }`.
+func c35HostChain(fset *token.FileSet, st *ast.IfStmt) (rule []string, def string, ok bool) {
+	for cur := st; ; {
+		if cur.Init != nil {
+			return nil, "", false
+		}
+		c, ok1 := c35HostCond(fset, cur.Cond)
+		s, ok2 := c35HostAssign(fset, cur.Body)
+		if !ok1 || !ok2 {
+			return nil, "", false
+		}
+		rule = append(rule, fmt.Sprintf("(%s, %s)", c, s))
+		switch e := cur.Else.(type) {
+		case *ast.IfStmt:
+			cur = e
+		case *ast.BlockStmt:
+			d, ok3 := c35HostAssign(fset, e)
+			return rule, d, ok3
+		default: // no final else: out.URL.Host would keep whatever ReverseProxy put there
+			return nil, "", false
+		}
+	}
+}
+
 func runC35Facts(args []string) {
 	if len(args) != 2 {
 		fail("usage: c35-facts <namespace> <proxy_handler.go>")
@@ -96,15 +178,54 @@ func runC35Facts(args []string) {
 			}
 		}
 	}
-	if !foundDel || rewrite == nil {
+	if !foundDel || rewrite == nil || rewrite.Body == nil {
 		fail("c35-facts: delHeaders / proxyRewrite not found")
 	}
 	var ops []string
+	var hostRule []string
+	hostDefault := ""
+	// host statements must come in this order: 0 selection chain, 1 `out.URL.Host = out.URL.Hostname()`,
+	// 2 `out.Host = out.URL.Host`; 3 = host fixed (only then may a header statement read out.URL.Host)
+	hostPhase := 0
+	aliasIn, aliasOut := false, false
 	for _, st := range rewrite.Body.List {
 		src := c35Src(fset, st)
+		oneLine := strings.ReplaceAll(src, "\n", " ")
+		switch src {
+		case "in := preq.In":
+			aliasIn = true
+			continue
+		case "out := preq.Out":
+			aliasOut = true
+			continue
+		}
 		touches := strings.Contains(src, "Header") || strings.Contains(src, "SetXForwarded")
 		if !touches {
-			continue
+			if !strings.Contains(src, "Host") {
+				continue // e.g. out.URL.Scheme = "https"
+			}
+			if !aliasIn || !aliasOut {
+				fail("c35-facts: proxyRewrite does not start with `in := preq.In` / `out := preq.Out`")
+			}
+			switch {
+			case hostPhase == 0:
+				if is, ok := st.(*ast.IfStmt); ok {
+					if rule, def, ok := c35HostChain(fset, is); ok {
+						hostRule, hostDefault, hostPhase = rule, def, 1
+						continue
+					}
+				}
+			case hostPhase == 1 && src == "out.URL.Host = out.URL.Hostname()":
+				hostPhase = 2
+				continue
+			case hostPhase == 2 && src == "out.Host = out.URL.Host":
+				hostPhase = 3
+				continue
+			}
+			fail("c35-facts: host statement of unknown shape (or order) in proxyRewrite: %s", oneLine)
+		}
+		if strings.Contains(src, "URL.Host") && hostPhase != 3 {
+			fail("c35-facts: header statement reads out.URL.Host before the host statements are complete: %s", oneLine)
 		}
 		switch x := st.(type) {
 		case *ast.ExprStmt:
@@ -171,6 +292,9 @@ func runC35Facts(args []string) {
 		}
 		fail("c35-facts: header statement of unknown shape in proxyRewrite: %s", strings.ReplaceAll(src, "\n", " "))
 	}
+	if hostPhase != 3 {
+		fail("c35-facts: proxyRewrite lacks the host statements (selection chain; out.URL.Host = out.URL.Hostname(); out.Host = out.URL.Host)")
+	}
 	var sb strings.Builder
 	sb.WriteString("import SpecterModel.C35.Ops\n")
 	sb.WriteString("/-! GENERATED by `extract c35-facts` from gateway/proxy_handler.go — do not edit. -/\n")
@@ -180,6 +304,8 @@ func runC35Facts(args []string) {
 		qs[i] = leanStr(d)
 	}
 	fmt.Fprintf(&sb, "/-- `delHeaders`, canonicalised as `http.Header.Del` does -/\ndef delHeaders : List String := [%s]\n\n", strings.Join(qs, ", "))
+	fmt.Fprintf(&sb, "/-- host-selection chain of `proxyRewrite`: the first condition that holds decides where `out.URL.Host`\n(then reduced by `.Hostname()` and copied to `out.Host`) is taken from -/\ndef hostRule : List (HostCond × HostSrc) := [%s]\n\n", strings.Join(hostRule, ", "))
+	fmt.Fprintf(&sb, "/-- the final `else` of the chain -/\ndef hostDefault : HostSrc := %s\n\n", hostDefault)
 	fmt.Fprintf(&sb, "/-- header operations of `proxyRewrite`, in source order -/\ndef rewriteOps : List HOp := [\n  %s]\n\n", strings.Join(ops, ",\n  "))
 	fmt.Fprintf(&sb, "end %s\n", ns)
 	fmt.Print(sb.String())
